@@ -22,6 +22,7 @@ Untranslatable):
 import ast
 import hashlib
 import os
+import warnings
 
 
 class Untranslatable(Exception):
@@ -55,7 +56,9 @@ class ProbeTranslator:
         self.path = os.path.join(repo, 'lcapy', 'netlistopsmixin.py')
         src = open(self.path).read()
         self.sha = hashlib.sha256(src.encode()).hexdigest()
-        tree = ast.parse(src)
+        with warnings.catch_warnings():
+            warnings.simplefilter('ignore')
+            tree = ast.parse(src)
         cls = [n for n in tree.body if isinstance(n, ast.ClassDef) and n.name == 'NetlistOpsMixin']
         if len(cls) != 1:
             raise Untranslatable('%s: class NetlistOpsMixin not found' % FNAME)
@@ -240,8 +243,16 @@ class ProbeTranslator:
             fail(m_, 'expected M = new.Aparams|Zparams(N1p, N1m, N2p, N2m)')
         mname = m_.targets[0].id
         r_ = body[3]
+        via = None
+        if (isinstance(r_, ast.Return) and isinstance(r_.value, ast.Attribute) and r_.value.attr == X + 'model' and X != 'Z'
+                and isinstance(r_.value.value, ast.Call) and isinstance(r_.value.value.func, ast.Name) and r_.value.value.func.id == 'TwoPortZModel'):
+            # return TwoPortZModel(Z, V1z=.., V2z=..).<X>model : the Z model of the readings, converted by the model classes
+            self.check_model_property(X)
+            via = 'Z'
+            r_ = ast.Return(value=r_.value.value, lineno=r_.lineno)
         if not (isinstance(r_, ast.Return) and isinstance(r_.value, ast.Call) and isinstance(r_.value.func, ast.Name) and len(r_.value.args) == 1):
             fail(r_, 'expected return TwoPort<K>Model(...)')
+        X0, X = X, (via or X)
         if r_.value.func.id != 'TwoPort%sModel' % X:
             fail(r_, "model == '%s' does not return a TwoPort%sModel" % (X, X))
         a0 = ast.unparse(r_.value.args[0])
@@ -262,7 +273,25 @@ class ProbeTranslator:
             if not (isinstance(v, ast.Name) and v.id in env):
                 fail(r_, 'source keyword is not one of the readings')
             src.append(env[v.id])
-        return {'probe': probe, 'conv': conv, 'src': tuple(src)}
+        return {'probe': probe, 'conv': X0 if via else conv, 'src': tuple(src), 'via': via, 'kind': X}
+
+    def check_model_property(self, X):
+        """TwoPort.<X>model in lcapy/twoport.py must be  return TwoPort<X>Model(self.<X>params, <own1>=self.<own1>, <own2>=self.<own2>)
+        (the conversions self.<own k> are translated by tools/tr_sections.py and proved as src_conv_*)"""
+        path = os.path.join(os.path.dirname(self.path), 'twoport.py')
+        with warnings.catch_warnings():
+            warnings.simplefilter('ignore')
+            tree = ast.parse(open(path).read())
+        want = 'TwoPort%sModel(self.%sparams, %s=self.%s, %s=self.%s)' % (X, X, SRC_OWN[X][0], SRC_OWN[X][0], SRC_OWN[X][1], SRC_OWN[X][1])
+        for c in tree.body:
+            if isinstance(c, ast.ClassDef) and c.name == 'TwoPort':
+                for f in c.body:
+                    if isinstance(f, ast.FunctionDef) and f.name == X + 'model':
+                        rets = [s_ for s_ in ast.walk(f) if isinstance(s_, ast.Return)]
+                        if len(rets) == 1 and ast.unparse(rets[0].value) == want:
+                            return
+                        raise Untranslatable('lcapy/twoport.py:%s: TwoPort.%smodel is not %s' % (f.lineno, X, want))
+        raise Untranslatable('lcapy/twoport.py: TwoPort.%smodel not found' % X)
 
     # ---- driver ------------------------------------------------------------------------------------------
     def translate_all(self):
@@ -366,6 +395,35 @@ Proof.
   unfold probe_%s, spec_%s. rewrite ?U. apply mat_eq; first [reflexivity | field; repeat split; assumption].
 Qed.
 ''' % (X, 'n' if X == 'A' else '', X, X, X, X, X, X, X, X))
+            if X == 'A':
+                body += '''
+(* ... and for a network whose port relation is the B relation of a section (theorems section_sem_X, chain_sem, ladder_sem_X) *)
+Theorem probe_A_section (Z0 : K) (R : port K -> Prop) (Bm : mat K) (m : meas K) :
+  (forall v, R v <-> rel_B Z0 Bm v) -> m11 Bm * m22 Bm - m12 Bm * m21 Bm <> 0 -> meas_A_ok R m ->
+  forall v, R v <-> rel_A Z0 (probe_A m) v.
+Proof.
+  intros HR Hd Hm. assert (HA : forall v, R v <-> rel_A Z0 (B_as_A Bm) v) by (intro v; rewrite HR; apply relB_as_A; exact Hd).
+  rewrite (probe_A_sound Z0 R _ m HA Hm). exact HA.
+Qed.
+'''
+            elif X == 'Z':
+                body += '''
+(* ... and for a network whose port relation is the B relation of a section (theorems section_sem_X, chain_sem, ladder_sem_X) *)
+Theorem probe_Z_section (Z0 : K) (R : port K -> Prop) (Bm : mat K) (m : meas K) :
+  (forall v, R v <-> rel_B Z0 Bm v) -> m21 Bm <> 0 -> meas_Z_ok R m ->
+  forall v, R v <-> rel_Z Z0 (probe_Z m) v.
+Proof.
+  intros HR Hd Hm. assert (HA : forall v, R v <-> rel_Z Z0 (B_as_Z Bm) v) by (intro v; rewrite HR; apply relB_as_Z; exact Hd).
+  rewrite (probe_Z_sound Z0 R _ m HA Hm). exact HA.
+Qed.
+'''
+            else:
+                body += '''
+Theorem probe_B_section (Z0 : K) (R : port K -> Prop) (Bm : mat K) (m : meas K) :
+  (forall v, R v <-> rel_B Z0 Bm v) -> meas_B_ok R m -> forall v, R v <-> rel_B Z0 (probe_B m) v.
+Proof. intros HR Hm. rewrite (probe_B_sound Z0 R Bm m HR Hm). exact HR. Qed.
+'''
+            names.append('probe_%s_section' % X)
             for Y, X2 in self.via.items():
                 if X2 != X:
                     continue
@@ -386,7 +444,10 @@ Proof. intros HR Hm. unfold probe_%s. rewrite (probe_%s_sound Z0 R M m HR Hm). r
                 self.atoms(ir, ats)
             hyps = ' ->\n  '.join('is_meas R %s %s (m %s %s)' % (a, b, a, b) for a, b in ats)
             nm = 'twoport_src_%s_sound' % X
-            body = ('''
+            X0, X = X, d.get('kind', X)
+            body = ('(* twoport(model=%r) returns TwoPort%sModel(...).%smodel: the statement is about the intermediate %s model; the conversion\n'
+                    '   .%smodel uses the source conversions proved as src_conv_%s_B and src_conv_B_* / src_conv_TwoPort_* *)\n' % (X0, X, X0, X, X0, X)) if d.get('via') else ''
+            body += ('''
 (* NetlistOpsMixin.twoport(model='%s'): the two readings stored as %s, %s of the returned TwoPort%sModel are the source
    vector of the affine %s relation of the network (sources alive), whenever the analyses have a solution *)
 Theorem %s (R : port K -> Prop) (M : mat K) (s1 s2 : K) (m : meas K) :
@@ -398,9 +459,9 @@ Proof.
   %s
   unfold tp_src_%s_1, tp_src_%s_2. split; knsatz.
 Qed.
-''' % (X, SRC_OWN[X][0], SRC_OWN[X][1], X, X, nm, rel[X], hyps, X, X,
-                 ' '.join('intros Hmeas%d. use_meas Hmeas%d HR.' % (k, k) for k in range(len(ats))), X, X))
-            files['C07_tpsrc_%s.v' % X] = ([nm], self.HDR + body + 'End Obl.\nPrint Assumptions %s.\n' % nm)
+''' % (X0, SRC_OWN[X][0], SRC_OWN[X][1], X, X, nm, rel[X], hyps, X0, X0,
+                 ' '.join('intros Hmeas%d. use_meas Hmeas%d HR.' % (k, k) for k in range(len(ats))), X0, X0))
+            files['C07_tpsrc_%s.v' % X0] = ([nm], self.HDR + body + 'End Obl.\nPrint Assumptions %s.\n' % nm)
         return files
 
 
